@@ -398,10 +398,12 @@ func (c *Real32) LogBesselI(v float64, b ConstScalar) Scalar {
   }
   f2 := func() float64 {
     v1 := special.LogBesselI(v-1.0, x)
-    v2 := special.LogBesselI(v-2.0, x)
     v3 := special.LogBesselI(v+2.0, x)
-    t1 := 0.25*(math.Exp(v2-v0) + 2.0 + math.Exp(v3-v0))
-    t2 := math.Exp(v1-v0) - v/x
+    // I_{v-2}/I_v = 1 + 2(v-1)/x I_{v-1}/I_v (recurrence); I_{v-2} itself
+    // is negative for some 0 < v < 1 and then has no logarithm
+    r1 := math.Exp(v1-v0)
+    t1 := 0.25*(1.0 + 2.0*(v-1.0)/x*r1 + 2.0 + math.Exp(v3-v0))
+    t2 := r1 - v/x
     return t1 - t2*t2
   }
   return c.monadicLazy(b, v0, f1, f2)
